@@ -255,7 +255,7 @@ def plan(prop, tier):
                 PairJob("c18_pairs", IR, IR, pops, 2, 2, hosts='{"0","2"}', timeout=200, nodes_a=2 if q else 3, nodes_b=2,
                         targets=[(t, "map-map", "plain") for t in (["u32", "Ipv6Net"] if q else hostful)])]
     if prop == "C20":
-        allobs = ["Get", "GetKV", "Contains", "Lpm", "Spm", "Cover", "Children", "Iter", "Len", "ViewDesc", "Find"]
+        allobs = ["Get", "GetKV", "Contains", "Lpm", "Spm", "Cover", "Children", "Iter", "Len", "ViewDesc", "Find", "Misc", "SplitOp"]
         allmut = MUT + ["Entry", "GetMut", "LpmMut", "IterMut", "ValuesMut", "ChildrenMut", "ViewValueMut", "ViewIterMut"]
         every = allmut + allobs
         bt = ALL_TYPES
